@@ -144,4 +144,30 @@ def Prog.setFn (p : Prog) (f np : Nat) (va : Bool) (nused : Nat) : Prog :=
 def Prog.setCo (p : Prog) (j : Nat) (d : CoDef) : Prog :=
   { p with cos := (p.cos.filter (·.1 ≠ j)) ++ [(j, d)] }
 
+/-! ### the fragment of scripts covered by the history-level simulation theorem (Props/C06 §6) -/
+
+/-- acts covered: create/resume (plain and wrapped, also under pcall), yield (also tail-called), return, error, status,
+    running and ordinary Lua calls (frame depth); coroutine ids are 1..4 (the objects a script can hold; 0 is the main
+    thread, which no Lua 5.1 script can name); for-in over a wrapped coroutine (≥ 1 loop variable).  Not covered:
+    host-function yields (Go API histories), Go-function bodies. -/
+def okAct : Act → Bool
+  | .yield _ _ _ _ => true
+  | .resume j _ _ _ _ => decide (1 ≤ j) && decide (j ≤ 4)
+  | .ret _ _ => true
+  | .err _ => true
+  | .status j => decide (1 ≤ j) && decide (j ≤ 4)
+  | .running => true
+  | .call _ _ _ _ => true
+  | .forin j nvars => decide (1 ≤ j) && decide (j ≤ 4) && decide (1 ≤ nvars)
+  | .hyield _ _ _ _ => false
+
+/-- the guard of the simulation theorem: every function keeps its parameters inside its register window
+    (`np ≤ NumUsedRegisters`, which the compiler guarantees), uses covered acts only; the coroutines are 1..4 with Lua
+    bodies; the main chunk has no named parameters. -/
+def okProg (p : Prog) : Bool :=
+  p.fns.all (fun x => decide (x.2.np ≤ x.2.nused) && x.2.acts.all okAct) &&
+  p.cos.all (fun x => decide (1 ≤ x.1) && decide (x.1 ≤ 4) && x.2.body.isSome) &&
+  decide ((p.fn 0).np = 0) && !(p.fn 0).vararg
+
+
 end GLua.CoScript
